@@ -23,9 +23,10 @@ from vmon.monitors import pty_term
 PROPERTY = "C12"
 LEVEL = "fault_enumeration"
 SHARDS = {"quick": 1, "thorough": 1}  # one shard; it runs 16 session subprocesses at a time (threads + subprocess.run)
-BUDGET = {"quick": 50.0, "thorough": 560.0}
+BUDGET = {"quick": 100.0, "thorough": 900.0}  # ceilings (heavily loaded machine); typical use is 15-25 s / 2-4 min
 WORKERS = 16
 REQUIRE = {
+    "fresh_vs_forked_agree": 6,
     "sessions": 100,
     "sessions_faultfree": 8,
     "inject_reached:exit": 40,
@@ -99,6 +100,7 @@ TOK = {
     "Q": ("Q", ["Q"]),
 }
 SCRIPT_A = ["a", "bz", "m1", "up", "focus", "@alarm0", "@winch", "@pipe", "@file", "paste", "p", "a", "m1", "m1out", "c", "@alarm1", "Q"]
+SCRIPT_S = ["a", "bz", "m1", "@alarm0", "@winch", "@pipe", "@file", "up", "m3", "@alarm1", "Q"]
 SCRIPT_B = ["@winch", "@pipe", "a", "m3", "@alarm0", "@file", "p", "bz", "m1", "c", "up", "paste", "@alarm1", "@winch2", "focus", "Q"]
 
 
@@ -182,7 +184,7 @@ def expected_keys(spec):
     return out
 
 
-def judge(spec, res, ctx):  # noqa: C901, PLR0912, PLR0915
+def judge(spec, res, ctx, base_rst=None):  # noqa: C901, PLR0912, PLR0915
     """-> list of (signature, message). Counters are added to ctx."""
     v = []
     tag = cfg_tag(spec)
@@ -197,18 +199,27 @@ def judge(spec, res, ctx):  # noqa: C901, PLR0912, PLR0915
     def add(clause, detail, msg):
         v.append((f"C12|{tag}|{clause}|{detail}|inj={icls}", msg))
 
+    def add_rst(detail, msg):
+        # a restoration failure that the fault-free session of the same configuration shows too does not depend on the
+        # exit path: one signature for it; otherwise the exit path (not the exact callback) names the mechanism
+        if not inj or (base_rst is not None and detail in base_rst):
+            path = "any-exit-path"
+        elif spec.get("rst_any_callback"):
+            path = f"after-{inj['kind']}-from-any-callback"
+        else:
+            path = f"after-{icls}"
+        v.append((f"C12|{tag}|RST|{detail}|{path}", msg))
+
     # ---------------- ORD: filter -> widget -> unhandled, arrival order
     exp_keys = expected_keys(spec)
     got_keys = []
     popup_open = False
     pending = []  # input events (already filtered) still to be delivered from the last filter call
-    awaiting = None  # ("unhandled", key) expected next, or ("ret", site)
     events = [e for e in log if e["site"] in ("filter", "keypress", "mouse", "unhandled", "ret", "inject", "alarm", "pipe", "file")]
-    i = 0
     ord_broken = False
     cur = None  # input event being delivered
     cur_unh = None
-    stage = None  # None | 'widget-called' | 'need-unhandled' | 'unhandled-called'
+    stage = None  # None | 'need-unhandled'
     for e in events:
         s = e["site"]
         if s == "inject":
@@ -239,18 +250,20 @@ def judge(spec, res, ctx):  # noqa: C901, PLR0912, PLR0915
                 ord_broken = True
                 break
             cur = pending.pop(0)
+            if _swallowed_by_overlay(spec, popup_open, cur):
+                # open pop-up + mouse event outside it: the topmost widget (PopUpTarget/Overlay) declines it without
+                # asking any child, so it must have gone to unhandled_input -- which the log would show first
+                add("ORD", "unhandled-input-skipped", f"{cur!r} (outside the open pop-up) never reached unhandled_input")
+                ord_broken = True
+                break
             want_site = "keypress" if isinstance(cur, str) else "mouse"
             got = e.get("key") if s == "keypress" else e.get("ev")
             recv = "M"
             want = cur
             if spec["pop_ups"] and popup_open:
-                if isinstance(cur, str):
-                    recv = "P"
-                else:
-                    c, r = cur[2], cur[3]
-                    if POP["left"] <= c < POP["left"] + POP["w"] and POP["top"] <= r < POP["top"] + POP["h"]:
-                        recv = "P"
-                        want = [cur[0], cur[1], c - POP["left"], r - POP["top"]]
+                recv = "P"
+                if not isinstance(cur, str):
+                    want = [cur[0], cur[1], cur[2] - POP["left"], cur[3] - POP["top"]]
             if s != want_site or got != want:
                 add("ORD", "wrong-event-at-widget", f"expected {want_site} {want!r}, widget saw {s} {got!r}")
                 ord_broken = True
@@ -262,7 +275,6 @@ def judge(spec, res, ctx):  # noqa: C901, PLR0912, PLR0915
             if e["w"] == "P":
                 ctx.count("popup_routed_events")
             ctx.count("ORD_input_events_checked")
-            stage = "widget-called"
             # model of the spy's documented behaviour
             if s == "keypress":
                 handled = cur in HANDLED_KEYS
@@ -272,10 +284,15 @@ def judge(spec, res, ctx):  # noqa: C901, PLR0912, PLR0915
                     popup_open = False
             else:
                 handled = cur[1] == 1
-            cur_unh = cur if s == "keypress" else cur  # unhandled gets the ORIGINAL event
+            cur_unh = cur  # unhandled_input gets the event as the topmost widget got it
             stage = None if handled else "need-unhandled"
             continue
         if s == "unhandled":
+            if stage != "need-unhandled" and pending and _swallowed_by_overlay(spec, popup_open, pending[0]):
+                cur = cur_unh = pending.pop(0)
+                stage = "need-unhandled"
+                ctx.count("ORD_input_events_checked")
+                ctx.count("popup_outside_mouse_events")
             if stage != "need-unhandled":
                 add("ORD", "unhandled-called-for-handled-input", f"unhandled_input({e['key']!r}) although the widget handled it / nothing pending")
                 ord_broken = True
@@ -351,8 +368,13 @@ def judge(spec, res, ctx):  # noqa: C901, PLR0912, PLR0915
             add("EXIT", f"faultfree-run-raised:{out.get('exc_type')}", f"run() raised {out.get('exc_repr')}\n{out.get('tb', '')}")
         elif fe != "Q":
             add("EXIT", f"session-ended-by:{fe}", "the scripted final 'Q' never ended the session")
+    elif _final_exit(log[:inj_pos]) is not None:
+        # the scripted final ExitMainLoop was raised first and a lazily stopping loop (asyncio/tornado/twisted/trio) still
+        # ran the callback that carries the injection: two exits compete, the statement does not say which wins
+        ctx.count("inject_after_final_exit_not_judged")
     else:
         kind = inj["kind"]
+        fe = _final_exit(log[inj_pos:])
         ctx.count(f"inject_reached:{kind}")
         ctx.count(f"site_injected:{inj['site']}")
         ctx.count(f"EXIT_{kind}_checked")
@@ -366,9 +388,13 @@ def judge(spec, res, ctx):  # noqa: C901, PLR0912, PLR0915
                 add("EXIT", "boom-swallowed", f"Boom from {icls} never left run(): run() returned normally (final exit via {fe}); {len(after)} callbacks ran after it")
             elif not out.get("same_object"):
                 add("EXIT", f"boom-replaced-by:{out.get('exc_type')}", f"run() raised {out.get('exc_repr')} instead of the injected object\n{out.get('tb', '')}")
-        if after and not any(s.startswith(f"C12|{tag}|EXIT|") for s, _ in v):
-            kinds = sorted({e["site"] for e in after})
-            add("EXIT", f"callbacks-after-fault:{'+'.join(kinds)}", f"{len(after)} user callbacks ran after the injected {kind}: {[(e['site'], e['k']) for e in after][:6]}")
+        # Callbacks that run between the fault and run() ending are COUNTED, not judged: asyncio/tornado/twisted/trio stop
+        # at the end of the current loop iteration, so whatever was already ready in it still runs; the statement only
+        # fixes how run() ends.  A fault that does not end run() shows up above (session reaches its own final exit).
+        ctx.count("sessions_with_callbacks_between_fault_and_run_end", 1 if after else 0)
+        ctx.count("callbacks_between_fault_and_run_end", len(after))
+        if after:
+            ctx.count(f"callbacks_between_fault_and_run_end:{spec['loop']}", len(after))
 
     # ---------------- RST
     ctx.count("RST_checked")
@@ -400,20 +426,27 @@ def judge(spec, res, ctx):  # noqa: C901, PLR0912, PLR0915
     if t.style.style() != VT(2, 2).style.style():
         bad.append("sgr")
     for b in bad:
-        add("RST", f"terminal:{b}", f"final terminal state: {b} (modes={sorted(t.modes)}, alt={t.alt_screen}, cursor_visible={t.cursor_visible}); tail={data[-80:]!r}")
+        add_rst(f"terminal:{b}", f"final terminal state: {b} (modes={sorted(t.modes)}, alt={t.alt_screen}, cursor_visible={t.cursor_visible}); tail={data[-80:]!r}")
     if not res["termios_equal"]:
         diff = [n for n, (x, y) in enumerate(zip(res["termios_before"], res["termios_after"])) if x != y]
-        add("RST", "termios", f"tcgetattr differs in fields {diff}: before lflag={res['termios_before'][3]:#x} after lflag={res['termios_after'][3]:#x}")
+        add_rst("termios", f"tcgetattr differs in fields {diff}: before lflag={res['termios_before'][3]:#x} after lflag={res['termios_after'][3]:#x}")
     for name, d in sorted(res["signals"].items()):
         if d["same"]:
             continue
         if name == "SIGINT" and spec["loop"] == "twisted" and spec["hook"]:
             ctx.count("twisted_reactor_sigint_left_installed")
             continue
-        add("RST", f"signal-handler:{name}|initial={spec['handlers']}", f"{name}: before {d['before']} after {d['after']}")
+        add_rst(f"signal-handler:{name}|initial={spec['handlers']}", f"{name}: before {d['before']} after {d['after']}")
     if res["started_after"]:
-        add("RST", "screen-still-started", "screen.started is True after run()")
+        add_rst("screen-still-started", "screen.started is True after run()")
     return v
+
+
+def _swallowed_by_overlay(spec, popup_open, ev):
+    if not (spec["pop_ups"] and popup_open) or isinstance(ev, str):
+        return False
+    c, r = ev[2], ev[3]
+    return not (POP["left"] <= c < POP["left"] + POP["w"] and POP["top"] <= r < POP["top"] + POP["h"])
 
 
 def _final_exit(log):
@@ -433,38 +466,42 @@ def base_cfg(**kw):
 
 
 def plan_configs(ctx):
-    """-> list of (cfg, tokens, mode) ; mode = 'full' | 'points'"""
+    """-> list of (cfg, tokens, mode); mode: 'full' | 'ends' (k=0 and last per site) | 'first' (k=0 per site + a mid
+    idle render + the very last invocation) | 'few'"""
     plans = []
-    full_loops = ("select", "asyncio") if ctx.quick else LOOPS
-    for lp in LOOPS:
-        plans.append((base_cfg(loop=lp), SCRIPT_A, "full" if lp in full_loops else "points"))
-    # pop_ups on
-    for lp in LOOPS:
-        plans.append((base_cfg(loop=lp, pop_ups=True), SCRIPT_A, "points" if ctx.quick else "full"))
-    # screen without external loop support
-    plans.append((base_cfg(hook=False), SCRIPT_A, "points" if ctx.quick else "full"))
-    plans.append((base_cfg(hook=False, pop_ups=True), SCRIPT_B, "points" if ctx.quick else "full"))
-    # application-installed signal handlers
-    for lp in ("select", "asyncio", "twisted") if ctx.quick else LOOPS:
-        plans.append((base_cfg(loop=lp, handlers="custom"), SCRIPT_B, "few" if ctx.quick else "full"))
-    # modes off
-    for lp in ("select",) if ctx.quick else LOOPS:
-        plans.append((base_cfg(loop=lp, mouse=False, paste=False, focus=False), SCRIPT_B, "few" if ctx.quick else "points"))
-        if not ctx.quick:
-            plans.append((base_cfg(loop=lp, mouse=True, paste=False, focus=True), SCRIPT_B, "points"))
-            plans.append((base_cfg(loop=lp, mouse=False, paste=True, focus=False, pop_ups=True), SCRIPT_A, "points"))
-    if not ctx.quick:
+    if ctx.quick:
         for lp in LOOPS:
-            plans.append((base_cfg(loop=lp), SCRIPT_B, "full"))
-        # seeded shuffles of the script
-        for n in range(6):
-            r = ctx.subrng("shuffle", n)
-            mid = [t for t in SCRIPT_A if t not in ("@alarm0", "@alarm1", "Q")]
-            r.shuffle(mid)
-            a0 = r.randrange(1, len(mid) - 2)
-            a1 = r.randrange(a0 + 1, len(mid))
-            toks = mid[:a0] + ["@alarm0"] + mid[a0:a1] + ["@alarm1"] + mid[a1:] + ["Q"]
-            plans.append((base_cfg(loop=LOOPS[n % 6], pop_ups=bool(n & 1)), toks, "points"))
+            plans.append((base_cfg(loop=lp), SCRIPT_S, "full" if lp in ("select", "asyncio") else "first"))
+        for lp in LOOPS:
+            plans.append((base_cfg(loop=lp, pop_ups=True), SCRIPT_A, "ends" if lp in ("select", "asyncio") else "few"))
+        plans.append((base_cfg(hook=False), SCRIPT_A, "first"))
+        plans.append((base_cfg(hook=False, pop_ups=True), SCRIPT_B, "few"))
+        for lp in ("select", "asyncio", "twisted"):
+            plans.append((base_cfg(loop=lp, handlers="custom"), SCRIPT_B, "few"))
+        plans.append((base_cfg(mouse=False, paste=False, focus=False), SCRIPT_B, "few"))
+        return plans
+    for lp in LOOPS:
+        plans.append((base_cfg(loop=lp), SCRIPT_A, "full"))
+        plans.append((base_cfg(loop=lp), SCRIPT_S, "full"))
+        plans.append((base_cfg(loop=lp, pop_ups=True), SCRIPT_A, "full"))
+        plans.append((base_cfg(loop=lp, pop_ups=True), SCRIPT_B, "full"))
+        plans.append((base_cfg(loop=lp, handlers="custom"), SCRIPT_B, "full"))
+        plans.append((base_cfg(loop=lp, mouse=False, paste=False, focus=False), SCRIPT_B, "ends"))
+        plans.append((base_cfg(loop=lp, mouse=True, paste=False, focus=True), SCRIPT_B, "first"))
+        plans.append((base_cfg(loop=lp, mouse=False, paste=True, focus=False, pop_ups=True), SCRIPT_A, "first"))
+    plans.append((base_cfg(hook=False), SCRIPT_A, "full"))
+    plans.append((base_cfg(hook=False), SCRIPT_B, "full"))
+    plans.append((base_cfg(hook=False, pop_ups=True), SCRIPT_A, "full"))
+    plans.append((base_cfg(hook=False, handlers="custom", paste=False), SCRIPT_B, "ends"))
+    # seeded shuffles of the long script
+    for n in range(12):
+        r = ctx.subrng("shuffle", n)
+        mid = [t for t in SCRIPT_A if t not in ("@alarm0", "@alarm1", "Q")]
+        r.shuffle(mid)
+        a0 = r.randrange(1, len(mid) - 2)
+        a1 = r.randrange(a0 + 1, len(mid))
+        toks = mid[:a0] + ["@alarm0"] + mid[a0:a1] + ["@alarm1"] + mid[a1:] + ["Q"]
+        plans.append((base_cfg(loop=LOOPS[n % 6], pop_ups=bool(n & 1), hook=(n != 6)), toks, "ends"))
     return plans
 
 
@@ -473,27 +510,47 @@ def injection_points(counts, mode):
     pts = []
     for site in SITES:
         n = counts.get(site, 0)
+        if not n:
+            continue
         if mode == "full":
-            ks = range(n)
-        elif mode == "points":
-            ks = sorted({0, n - 1, n // 2} & set(range(n)))
+            ks = list(range(n))
+        elif mode == "ends":
+            ks = sorted({0, n - 1})
+        elif mode == "first":
+            ks = sorted({0, n // 2, n - 1}) if site == "render" else [0]
         else:  # few
-            ks = [0] if n and site in ("render", "keypress", "alarm", "filter") else []
+            ks = [0] if site in ("keypress", "alarm", "filter") else ([n // 2] if site == "render" else [])
         pts.extend((site, k) for k in ks)
     return pts
 
 
-def run_batch(ctx, specs):
-    """run sessions 16 at a time; yields (spec, result) in submission order"""
-    out = []
+class Runner:
+    """plays specs in children forked from pre-imported template interpreters (pty_term.Pool); VERIF_C12_FRESH=1
+    (and replay) use one brand-new interpreter per session instead"""
+
+    def __init__(self):
+        import os
+
+        self.fresh = bool(os.environ.get("VERIF_C12_FRESH"))
+        self.pool = None if self.fresh else pty_term.Pool(core.REPO, WORKERS, 30.0)
+
+    def run(self, specs):
+        if self.pool is not None:
+            return list(zip(specs, self.pool.run(specs)))
+        return run_fresh(specs)
+
+    def close(self):
+        if self.pool is not None:
+            self.pool.close()
+
+
+def run_fresh(specs):
     with concurrent.futures.ThreadPoolExecutor(WORKERS) as ex:
         futs = [ex.submit(pty_term.run_session, s, 30.0) for s in specs]
-        for s, f in zip(specs, futs):
-            out.append((s, f.result()))
-    return out
+        return [(s, f.result()) for s, f in zip(specs, futs)]
 
 
-def evaluate(ctx, spec, res):
+def evaluate(ctx, spec, res, base_rst=None):
     """apply the oracle to one result; returns list of (sig, msg) or None when not judged"""
     if res is None:
         ctx.inconc(f"watchdog-30s:{cfg_tag(spec)}:inj={spec.get('inject')}")
@@ -515,15 +572,24 @@ def evaluate(ctx, spec, res):
         ctx.count("sessions_faultfree")
     for site, n in res["counts"].items():
         ctx.count(f"callbacks:{site}", n)
-    vs = judge(spec, res, ctx)
+    vs = judge(spec, res, ctx, base_rst)
     desc = [cfg_of(spec), spec["tokens"], spec.get("inject")]
     ctx.case(desc, nontrivial=b"\x1b[?1049h" in res["master"].encode("latin-1"))
     return vs
 
 
-def shrink_and_report(ctx, spec, res, vs, known):
+RST_DEFERRED: dict = {}
+
+
+def shrink_and_report(ctx, spec, res, vs, known, base_rst=None):
     """report each violation; for unlisted signatures try one cheap shrink (truncate the script after the fault)"""
     for sig, msg in vs:
+        if "|RST|" in sig and "|after-" in sig and not ctx.replaying and not spec.get("rst_any_callback"):
+            # restoration failures after an injected fault are grouped at the end of the run (flush_rst)
+            head, path = sig.rsplit("|after-", 1)
+            site, kind = path.rsplit(":", 1)
+            RST_DEFERRED.setdefault((head, kind), {}).setdefault(site, []).append((sig, msg, spec))
+            continue
         wit = spec
         s2 = sig.replace(" ", "_")
         if s2 not in known and s2 not in ctx.violations and spec.get("inject") and not ctx.replaying:
@@ -532,10 +598,32 @@ def shrink_and_report(ctx, spec, res, vs, known):
                 r2 = pty_term.run_session(cand, 30.0)
                 if r2 and "log" in r2:
                     sub = core.Ctx("C12", ctx.tier, ctx.seed, 0, 1, 1.0)
-                    if any(s == sig for s, _ in judge(cand, r2, sub)):
+                    if any(s == sig for s, _ in judge(cand, r2, sub, base_rst)):
                         wit = cand
                         ctx.count("witness_shrunk")
         ctx.violation(sig, msg, wit)
+
+
+def flush_rst(ctx):
+    """one mechanism, one signature: a restoration failure seen after faults at >= 3 different callback sites does not
+    depend on the site -> '<...>|after-<kind>-from-any-callback'; otherwise one signature per site"""
+    for (head, kind), by_site in sorted(RST_DEFERRED.items()):
+        if len(by_site) >= 3:
+            n = 0
+            best = None
+            for site, items in by_site.items():
+                for sig, msg, spec in items:
+                    n += 1
+                    if best is None or len(spec["script"]) < len(best[2]["script"]):
+                        best = (sig, msg, spec)
+            wit = dict(best[2], rst_any_callback=True)
+            for _ in range(n):
+                ctx.violation(f"{head}|after-{kind}-from-any-callback", best[1] + f" [seen after faults in {sorted(by_site)}]", wit)
+        else:
+            for site, items in by_site.items():
+                for sig, msg, spec in items:
+                    ctx.violation(sig, msg, spec)
+    RST_DEFERRED.clear()
 
 
 def _truncated(spec, res):
@@ -553,12 +641,31 @@ def _truncated(spec, res):
     return cand
 
 
+def rst_details(vs):
+    return {sig.split("|RST|", 1)[1].rsplit("|", 1)[0] for sig, _ in vs if "|RST|" in sig}
+
+
+def summary(res):
+    """what must agree between a forked-from-template child and a brand-new interpreter (which callback a render-indexed
+    injection interrupts is timing dependent, so per-site counts are compared for fault-free sessions only)"""
+    counts = None if res["spec"].get("inject") else {k: v for k, v in res["counts"].items() if k != "render"}
+    return (res["outcome"]["how"], res["outcome"].get("same_object"), counts, res["termios_equal"], res["started_after"], sorted((n, d["same"]) for n, d in res["signals"].items()))
+
+
 def run(ctx):
+    runner = Runner()
+    try:
+        _run(ctx, runner)
+    finally:
+        runner.close()
+
+
+def _run(ctx, runner):
     known = core.load_findings(PROPERTY)
     plans = plan_configs(ctx)
     # 1. fault-free runs
     base_specs = [make_spec(cfg, toks) for cfg, toks, _ in plans]
-    base = run_batch(ctx, base_specs)
+    base = runner.run(base_specs)
     todo = []
     for (cfg, toks, mode), (spec, res) in zip(plans, base):
         vs = evaluate(ctx, spec, res)
@@ -566,25 +673,43 @@ def run(ctx):
             continue
         ctx.sample({"cfg": cfg, "tokens": toks, "callback_counts": res["counts"], "outcome": res["outcome"]["how"]}, limit=2)
         shrink_and_report(ctx, spec, res, vs, known)
+        brst = rst_details(vs)
         pts = injection_points(res["counts"], mode)
         ctx.count("injection_points_enumerated", len(pts))
         for site, k in pts:
             for kind in ("exit", "boom"):
-                todo.append(make_spec(cfg, toks, {"site": site, "k": k, "kind": kind}))
+                todo.append((make_spec(cfg, toks, {"site": site, "k": k, "kind": kind}), brst))
+    # 1b. the forked-child shortcut must not change what is observed: replay some sessions in brand-new interpreters
+    if not runner.fresh:
+        probe = [s for s, r in base[: len(LOOPS)] if r and "log" in r]
+        probe += [t[0] for t in todo[:: max(1, len(todo) // 6)]][:6]
+        forked = dict((id(s), r) for s, r in runner.run(probe))
+        for s, r2 in run_fresh(probe):
+            r1 = forked.get(id(s))
+            if not (r1 and r2 and "log" in r1 and "log" in r2):
+                ctx.count("fresh_vs_forked_unavailable")
+                continue
+            if summary(r1) == summary(r2):
+                ctx.count("fresh_vs_forked_agree")
+            else:
+                ctx.count("fresh_vs_forked_differ")
+                ctx.inconc(f"forked-child-and-fresh-interpreter-disagree:{cfg_tag(s)}:inj={s.get('inject')}")
     ctx.count("injected_runs_planned", len(todo))
     # 2. injected runs, in chunks so the budget is honoured
     done = 0
-    chunk = WORKERS * 4
+    chunk = WORKERS * 8
     for i in range(0, len(todo), chunk):
         if not ctx.more(0.95):
             ctx.inconc(f"budget-exhausted-after-{done}-of-{len(todo)}-injected-runs")
             break
-        for spec, res in run_batch(ctx, todo[i : i + chunk]):
-            vs = evaluate(ctx, spec, res)
+        part = todo[i : i + chunk]
+        for (spec, res), (_, brst) in zip(runner.run([t[0] for t in part]), part):
+            vs = evaluate(ctx, spec, res, brst)
             done += 1
             if vs:
-                shrink_and_report(ctx, spec, res, vs, known)
+                shrink_and_report(ctx, spec, res, vs, known, brst)
     ctx.count("injected_runs_done", done)
+    flush_rst(ctx)
 
 
 def replay(ctx, wit):
